@@ -180,6 +180,11 @@ func (client *OpenIDConnectClientConfig) CanRedirectToURL(redirectUrl string) (b
 	if strings.Contains(parsedURL.Path, "..") {
 		return false, nil, nil
 	}
+	// Opaque URLs ("https:host/path") carry no parsed host or path, so none
+	// of the checks above or below would apply to what a browser navigates to.
+	if parsedURL.Opaque != "" || parsedURL.Hostname() == "" {
+		return false, nil, nil
+	}
 	// if no domains, the matchedRE answer is authoritative
 	if len(client.AllowedRedirectDomains) < 1 {
 		return matchedRE, parsedURL, nil
